@@ -52,35 +52,43 @@ def boot() -> None:
 # ------------------------------------------------------------------------------------------------
 # running the real code on one template, judging the result
 # ------------------------------------------------------------------------------------------------
-HANG_S = 2.0
+HANG_CPU_S = 1.0      # CPU seconds (ITIMER_VIRTUAL): immune to a loaded machine, an endless loop burns CPU
 
 
 class _Hang(BaseException):
-    """Raised by the SIGALRM watchdog inside a do_conf_str call that does not return."""
+    """Raised by the CPU-time watchdog inside a do_conf_str call that does not return."""
 
 
 def _on_alarm(signum: int, frame: T.Any) -> None:
     raise _Hang()
 
 
+def _call_real(lines: T.List[str], data: T.Mapping[str, T.Any], fmt: str, cpu_s: float) -> T.Tuple[T.Any, T.Any]:
+    cd = CD(dict(data))
+    signal.signal(signal.SIGVTALRM, _on_alarm)
+    signal.setitimer(signal.ITIMER_VIRTUAL, cpu_s)
+    try:
+        with MLOG.no_logging():
+            out, missing, _useless = U.do_conf_str('t.in', list(lines), cd, fmt)
+        return out, missing
+    finally:
+        signal.setitimer(signal.ITIMER_VIRTUAL, 0)
+
+
 def run_real(text: str, data: T.Mapping[str, T.Any], fmt: str) -> T.Tuple[str, T.Any, T.Any, T.List[str]]:
     lines = io.StringIO(text, newline='').readlines()      # exactly what do_conf_file reads from a file
-    cd = CD(dict(data))
-    signal.signal(signal.SIGALRM, _on_alarm)
-    signal.setitimer(signal.ITIMER_REAL, HANG_S)
-    try:
+    for attempt in (1, 2):
         try:
-            with MLOG.no_logging():
-                out, missing, _useless = U.do_conf_str('t.in', list(lines), cd, fmt)
+            out, missing = _call_real(lines, data, fmt, HANG_CPU_S * attempt * attempt)
             return 'ok', out, missing, lines
-        finally:
-            signal.setitimer(signal.ITIMER_REAL, 0)
-    except MesonException as e:
-        return 'error', str(e), None, lines
-    except _Hang:
-        return 'hang', 'no result within %.1f s' % HANG_S, None, lines
-    except Exception as e:      # anything else is an internal error of the code under test
-        return 'crash', type(e).__name__ + ': ' + str(e), None, lines
+        except MesonException as e:
+            return 'error', str(e), None, lines
+        except _Hang:
+            if attempt == 2:       # confirmed with four times the CPU budget
+                return 'hang', 'no result within %.0f CPU seconds' % (HANG_CPU_S * 4), None, lines
+        except Exception as e:      # anything else is an internal error of the code under test
+            return 'crash', type(e).__name__ + ': ' + str(e), None, lines
+    raise AssertionError('unreachable')
 
 
 class Tally(dict):
